@@ -263,6 +263,7 @@ def container_histories():
         [{"c": "field"}], [{"c": "new_module"}], [{"c": "connect"}], [{"c": "pattern"}], [{"c": "note"}],
         [{"c": "pattern_attr"}], [{"c": "module_ctl"}], [{"c": "new_module"}, {"c": "connect"}],
         [{"c": "pattern"}, {"c": "note"}], [{"c": "attach_none"}], [{"c": "clone_note"}],
+        [{"c": "cross_connect"}], [{"c": "connect"}, {"c": "cross_connect"}], [{"c": "cross_attach"}],
     ]
 
 
@@ -311,6 +312,20 @@ def check_container(hist):
         elif c == "attach_none":
             A.attach_module(None)
             A.attach_pattern(None)
+        elif c in ("cross_connect", "cross_attach"):
+            # requests that involve an object OWNED BY B (or by the clone / the loaded copy) are refused, and
+            # refused or not they must not touch the other project
+            for other in (B, Bc, Bl):
+                for attempt in ((lambda o=other: A.connect(A.modules[1], o.modules[1])),
+                                (lambda o=other: A.connect(o.modules[1], A.output)),
+                                (lambda o=other: A.modules[1] >> o.output),
+                                (lambda o=other: A.connect(A.modules[1], ~o.modules[1]))) if c == "cross_connect" else \
+                               ((lambda o=other: A.attach_module(o.modules[1])),
+                                (lambda o=other: A.attach_pattern(o.patterns[0]))):
+                    try:
+                        attempt()
+                    except Exception:
+                        pass
         elif c == "clone_note":
             P_free.data[0][0].note = rv.NOTECMD.C5
             P_free.data[0][0].vel = 100
